@@ -68,7 +68,11 @@ fn oracle(c: &Case, st: &mut Stats) -> Result<(), String> {
         Ok(a) => a,
         Err(e) if e.starts_with("HARNESS") => return Err(e),
         // writer problems are C01's business
-        Err(_) => return Ok(()),
+        Err(_) => {
+            // the writer refused a valid program: that is C01's verdict, nothing to judge here - but it is counted
+            st.label("skipped: writer failed on the program (judged by C01)");
+            return Ok(());
+        }
     };
     let ah = util::hash64(&a.bytes[a.header_len.min(a.bytes.len())..]) ^ util::hash64(format!("{:?}", a.res.ops).as_bytes());
     st.label(format!("layers={}", prog::layers_name(a.res.layers)));
